@@ -372,6 +372,11 @@ fn handle_established(
                     };
                 }
             }
+            if tcb.snd_wnd == 0 && s.window > 0 {
+                // Leaving the persist state: what is sent now gets a
+                // full retransmit interval.
+                tcb.egress_since_ack = 0;
+            }
             tcb.snd_wnd = s.window;
             wake_write = true;
         }
@@ -381,7 +386,14 @@ fn handle_established(
         // FIN, or the SYN-ACK of a handshake whose final ACK was lost)
         // means the peer never saw our ACK, and nothing else would ever
         // repeat it.
-        if !s.payload.is_empty() || s.flags.fin || s.flags.syn {
+        // So is anything that starts before rcv_nxt — that is how a
+        // zero-window probe (see `emit_window_probe`) asks for the
+        // current window.
+        if !s.payload.is_empty()
+            || s.flags.fin
+            || s.flags.syn
+            || (s.seq.wrapping_sub(tcb.rcv_nxt) as i32) < 0
+        {
             send_ack = true;
         }
 
@@ -1081,13 +1093,15 @@ pub(super) fn poll_recv(
         }
         let local = bound_endpoint(st);
         let tcb = st.tcb.as_mut().unwrap();
+        let was_closed = tcb.recv_buf.len() >= recv_cap;
         let n = tcb.recv_buf.len().min(buf.len());
         let drained = tcb.recv_buf.split_to(n);
         buf[..n].copy_from_slice(&drained);
         // Window-update trigger: if we freed ≥ half the recv cap,
         // advertise. Crude SWS avoidance; refine alongside real flow
-        // control.
-        let should_update = n >= recv_cap / 2;
+        // control. A window that was closed is always re-opened — the
+        // peer has no other way to learn about the free space.
+        let should_update = n >= recv_cap / 2 || (was_closed && n > 0);
         (n, should_update, local, peer)
     };
 
@@ -1188,7 +1202,7 @@ pub(super) fn check_retx(k: &mut Kernel) {
                     | TcpState::Closing
                     | TcpState::LastAck
             ) && tcb.snd_una != tcb.snd_nxt;
-            if handshake || data {
+            if handshake || data || zero_window_blocked(tcb) {
                 Some(fd)
             } else {
                 None
@@ -1198,10 +1212,29 @@ pub(super) fn check_retx(k: &mut Kernel) {
 
     let mut abort: Vec<Fd> = Vec::new();
     let mut resend_handshake: Vec<Fd> = Vec::new();
+    let mut probe: Vec<Fd> = Vec::new();
     for fd in candidates {
         let tcb = k.sockets.get_mut(fd).unwrap().tcb.as_mut().unwrap();
         tcb.egress_since_ack += 1;
         if tcb.egress_since_ack < threshold {
+            continue;
+        }
+        if zero_window_blocked(tcb) {
+            // Persist: the window update may be late, lost, or have been
+            // overtaken by an older ACK that still said 0. Ask again.
+            // Never gives up (the peer keeps answering) and does not use
+            // up retransmit attempts.
+            tcb.egress_since_ack = 0;
+            probe.push(fd);
+            continue;
+        }
+        if tcb.snd_wnd == 0 && !matches!(tcb.state, TcpState::SynSent | TcpState::SynReceived) {
+            // The peer told us it has no room: whatever is still in
+            // flight was dropped there. Pull it back and wait for the
+            // window (probing above); nothing is re-sent, so this is not
+            // a retransmit attempt.
+            tcb.snd_nxt = tcb.snd_una;
+            tcb.egress_since_ack = 0;
             continue;
         }
         if tcb.retx_attempts >= max {
@@ -1225,9 +1258,52 @@ pub(super) fn check_retx(k: &mut Kernel) {
     for fd in resend_handshake {
         emit_handshake(k, fd);
     }
+    for fd in probe {
+        emit_window_probe(k, fd);
+    }
     for fd in abort {
         abort_timed_out(k, fd);
     }
+}
+
+/// Nothing in flight, something to send (data or FIN), and the peer's
+/// last advertised window is zero.
+fn zero_window_blocked(tcb: &Tcb) -> bool {
+    matches!(
+        tcb.state,
+        TcpState::Established
+            | TcpState::CloseWait
+            | TcpState::FinWait1
+            | TcpState::Closing
+            | TcpState::LastAck
+    ) && tcb.snd_una == tcb.snd_nxt
+        && tcb.snd_wnd == 0
+        && (!tcb.send_buf.is_empty() || tcb.fin_seq == Some(tcb.snd_nxt))
+}
+
+/// Zero-window probe: an empty segment one below `snd_una`. It is not
+/// acceptable to the peer, which therefore answers with an ACK carrying
+/// its current window (same trick as a keep-alive). Carries no payload,
+/// so it never exceeds the advertised window.
+fn emit_window_probe(k: &mut Kernel, fd: Fd) {
+    let recv_cap = k.recv_buf_cap;
+    let st = k.lookup(fd).expect("probe candidate");
+    let tcb = st.tcb.as_ref().expect("probe candidate has tcb");
+    let local = bound_endpoint(st);
+    let remote = tcb.peer;
+    let seg = TcpSegment {
+        src_port: local.port(),
+        dst_port: remote.port(),
+        seq: tcb.snd_una.wrapping_sub(1),
+        ack: tcb.rcv_nxt,
+        flags: TcpFlags {
+            ack: true,
+            ..TcpFlags::default()
+        },
+        window: advertised_window(recv_cap, tcb.recv_buf.len()),
+        payload: Bytes::new(),
+    };
+    emit(k, local, remote, seg);
 }
 
 /// Re-emit the SYN (client, `SynSent`) or SYN-ACK (server,
